@@ -343,5 +343,9 @@ def gen_group_swap_rules(rng, letters, cellvals):
         "noback correct [!$l] ?", 'noback correct !"%s"["%s"] "%s"' % (a, b, a), "noback pass2 /@%s ?" % rng.choice(cs), 'noback correct "%s"/"%s" ?' % (a, b),
         "noback pass2 `@%s ?" % rng.choice(cs), "noback pass2 @%s~ @%s" % (rng.choice(cs), rng.choice(cs)), "nofor pass2 `[@%s] *" % rng.choice(cs),
         "multind %s-%s letsign capsletter" % (rng.choice(cs), rng.choice(cs)), "multind 56-6 capsletter letsign",
+        # long literals: a test that runs far behind the end of the pass input
+        "nofor pass2 @%s ?" % "-".join(pick(cs, 9)), "nofor pass3 @%s@%s *" % (rng.choice(cs), "-".join(pick(cs, 12))),
+        'nofor correct "%s" ?' % "".join(pick(L, 10)), "noback pass2 @%s ?" % "-".join(pick(cs, 9)), 'noback correct "%s" "%s"' % ("".join(pick(L, 10)), a),
+        "nofor context @%s@%s ?" % (rng.choice(cs), "-".join(pick(cs, 8))), "nofor pass2 [%%ss]@%s ?" % "-".join(pick(cs, 8)),
     ]
     return lines + rng.sample(pool, rng.range(3, 9))
